@@ -317,10 +317,10 @@ impl FileSpec {
 
         let new_path = self.as_pathbuf(Some(infix));
         let new_path_with_gz = {
-            let mut new_path_with_gz = new_path.clone();
-            new_path_with_gz
-                .set_extension([self.o_suffix.as_deref().unwrap_or(""), ".gz"].concat());
-            new_path_with_gz
+            // (works also without suffix, where set_extension() would not do what we need)
+            let mut new_path_with_gz = new_path.clone().into_os_string();
+            new_path_with_gz.push(".gz");
+            PathBuf::from(new_path_with_gz)
         };
 
         // if collision would occur (new_path or compressed new_path exists already),
@@ -410,7 +410,8 @@ impl FileSpec {
                         s == suffix
                     })
                 } else {
-                    true
+                    // no suffix is expected, but compressed files must not be taken for plain files
+                    path.extension().map_or(true, |ext| ext != "gz")
                 }
             })
             .filter(|path| {
